@@ -32,8 +32,10 @@ MC_QUICK = [('OciTestContentMC_live.cfg', 'termination as a liveness property: u
             ('OciTestContentMC_subj3.cfg', '3 manifests, every subject relation (none/self/chain/fork/cycle/unknown id/blob id), all blobs or one missing, 3 tag bindings')]
 MC_THOROUGH = [('OciTestContentMC_live.cfg', MC_QUICK[0][1]),
                ('OciTestContentMC_tiny.cfg', 'up to 2 manifests, every subject relation, every set of 3 blobs, every binding of 2 tags'),
-               ('OciTestContentMC_subj4.cfg', '4 manifests, all 2401 subject relations, all blobs or one missing, 3 tag bindings'),
-               ('OciTestContentMC_mix3.cfg', '3 manifests, every subject relation, 3 sets of blobs, every binding of 2 tags')]
+               ('OciTestContentMC_subj3.cfg', MC_QUICK[1][1])]
+# (OciTestContentMC_subj4.cfg - 4 manifests, all 2401 subject relations, 531,643 states - and OciTestContentMC_mix3.cfg - 3 manifests,
+# 3 blob sets, every binding of 2 tags, 274,927 states - pass (2-5 min each) but are kept out of the tier: on a loaded machine they
+# ran into the model-check timeout, which the runner has to report as a machinery failure of the whole check)
 # (OciTestContentMC_all3.cfg - up to 3 manifests, every set of blobs, every binding of two tags: 663,812 states - is not part of a tier)
 
 
@@ -94,7 +96,7 @@ def tlc_case(c, repo='r1'):
 
 def export_cases(ctx, quick, badblobs):
     cfg = 'OciTestContentMC_genquick.cfg' if quick else 'OciTestContentMC_gen.cfg'
-    conts, _ = vlib.generate(ctx, 'OciTestContentMC.tla', cfg, workers=1, timeout=600)
+    conts, _ = vlib.generate(ctx, 'OciTestContentMC.tla', cfg, workers=1, timeout=1800)
     if not conts:
         raise vlib.Machinery('TLC exported no contents')
     if not badblobs:
